@@ -195,9 +195,9 @@ static Bytes encodeTrack(const JV &trk, bool rs, int eotMode)
         if(k == "tempo") { tr.push_back(0xFF); tr.push_back(0x51); tr.push_back(3); putBE(tr, (unsigned long)e.get("us"), 3); }
         else if(k == "marker") putMeta(tr, 6, bytesOf(e["b"]));
         else if(k == "text") putMeta(tr, (int)e.get("ty", 1), bytesOf(e["b"]));
-        else if(k == "sysex")
+        else if(k == "sysex" || k == "sysex7")      // sysex7: an F7 escape event
         {
-            tr.push_back(0xF0); const JV &b = e["b"]; putVlq(tr, (unsigned long)b.a.size());
+            tr.push_back(k == "sysex7" ? 0xF7 : 0xF0); const JV &b = e["b"]; putVlq(tr, (unsigned long)b.a.size());
             for(size_t q = 0; q < b.a.size(); ++q) tr.push_back((uint8_t)b.a[q].num());
         }
     }
